@@ -20,3 +20,42 @@ func (x *Ctx) internalPrefix(s, p []byte) {
 	x.rawPair(fmt.Sprintf("i.hasPrefixUnicode\t%s\t%s", hexOrDash(s), hexOrDash(p)), b2s(m1)+":"+b2s(e1), b2s(m2)+":"+b2s(e2))
 	x.rawPair(fmt.Sprintf("i.containsKelvin\t%s", hexOrDash(p)), b2s(strcase.VerifContainsKelvin(string(p))), b2s(bytcase.VerifContainsKelvin(p)))
 }
+
+func pairStr(i, sz int) string { return itoa(i) + ":" + itoa(sz) }
+
+// internalRune: the unexported single-character strategies on (s, r)
+func (x *Ctx) internalRune(s []byte, r int64) {
+	if r < -2147483648 || r > 2147483647 {
+		return
+	}
+	rr := rune(r)
+	a := strcase.VerifIndexRuneCase(string(s), rr)
+	b := bytcase.VerifIndexRuneCase(s, rr)
+	x.rawPair(fmt.Sprintf("i.indexRuneCase\t%s\t%d", hexOrDash(s), r), itoa(a), itoa(b))
+	i1, z1 := strcase.VerifIndexRune(string(s), rr)
+	i2, z2 := bytcase.VerifIndexRune(s, rr)
+	// the size is only meaningful when something was found
+	if i1 < 0 {
+		z1 = 1
+	}
+	if i2 < 0 {
+		z2 = 1
+	}
+	x.rawPair(fmt.Sprintf("i.indexRune\t%s\t%d", hexOrDash(s), r), pairStr(i1, z1), pairStr(i2, z2))
+	x.rawPair(fmt.Sprintf("i.lastIndexRune\t%s\t%d", hexOrDash(s), r), itoa(strcase.VerifLastIndexRune(string(s), rr)), itoa(bytcase.VerifLastIndexRune(s, rr)))
+}
+
+func (x *Ctx) internalByte(s []byte, c int64) {
+	if c < 0 || c > 255 {
+		return
+	}
+	i1, z1 := strcase.VerifIndexByte(string(s), byte(c))
+	i2, z2 := bytcase.VerifIndexByte(s, byte(c))
+	if i1 < 0 {
+		z1 = 1
+	}
+	if i2 < 0 {
+		z2 = 1
+	}
+	x.rawPair(fmt.Sprintf("i.indexByte\t%s\t%d", hexOrDash(s), c), pairStr(i1, z1), pairStr(i2, z2))
+}
